@@ -245,6 +245,7 @@ class Decider:
             for a in A: s.add(tm.to_z3(a, memo, ufs, abstract=True))
             s.add(tm.to_z3(ng, memo, ufs, abstract=True))
             if self._check(s) == "unsat":
+                if self.keep_smt2: self.smt2.append((name + " [A0 abstraction]", s.to_smt2(), "unsat"))
                 return self._proved(A, "A0", t0, name)
         # B (one cheap round first: a satisfiable query is usually refuted here in milliseconds)
         rb, model = self._phase_b(goal, A, rounds=1)
@@ -343,24 +344,34 @@ class Decider:
         return ("unsat-at-hints" if last == "unknown" else last), None
 
 
-def cross_check(smt2_items, timeout=60):
-    """re-decide precise-phase proofs with /usr/bin/z3 (4.8.12) and cvc5 binaries; returns list of
-    (name, solver, answer) and a list of disagreements (answer sat, or an (error line)."""
-    res = []; bad = []
-    for name, text, verdict in smt2_items:
-        with tempfile.NamedTemporaryFile("w", suffix=".smt2", delete=False, dir=os.environ.get("VF_SCRATCH", "/dev/shm")) as f:
+def cross_check(smt2_items, timeout=20, workers=12):
+    """re-decide precise-phase proofs with /usr/bin/z3 (4.8.12) and cvc5 binaries (in parallel, each killed at the
+    deadline); returns [(name, solver, answer)] and the list of disagreements (answer sat, or an (error line).  A timeout
+    of the second solver is recorded as 'timeout' and is not a disagreement."""
+    from concurrent.futures import ThreadPoolExecutor
+    d = "/dev/shm" if os.path.isdir("/dev/shm") else None
+
+    def one(item):
+        name, text, verdict = item
+        with tempfile.NamedTemporaryFile("w", suffix=".smt2", delete=False, dir=d) as f:
             f.write("(set-logic ALL)\n" + text + "\n")
             path = f.name
+        out_ = []
         try:
             for solver, cmd in (("z3-4.8.12", ["/usr/bin/z3", f"-T:{timeout}", path]),
                                 ("cvc5-1.0", ["cvc5", f"--tlimit={timeout * 1000}", path])):
                 try:
-                    out = subprocess.run(cmd, capture_output=True, text=True, timeout=timeout + 10).stdout
+                    out = subprocess.run(cmd, capture_output=True, text=True, timeout=timeout + 5).stdout
                 except subprocess.TimeoutExpired:
                     out = "timeout"
                 ans = "error" if "(error" in out else (out.strip().splitlines() or ["?"])[0]
-                res.append((name, solver, ans))
-                if ans == "sat" or ans == "error": bad.append((name, solver, ans))
+                out_.append((name, solver, ans))
         finally:
             os.unlink(path)
+        return out_
+
+    res = []
+    with ThreadPoolExecutor(max_workers=workers) as ex:
+        for r in ex.map(one, smt2_items): res.extend(r)
+    bad = [x for x in res if x[2] in ("sat", "error")]
     return res, bad
